@@ -61,6 +61,12 @@ static Verdict runT(const T &t) {
   }
   PBT_CHECK(vd, leaf == lv.size(), "walked %zu leaves, schema has %zu", leaf, lv.size());
   PBT_CHECK(vd, carquet_schema_find_column(s, "no_such_column_\x01") == -1, "find_column of an absent name is not -1");
+  for (auto &l : lv) {   // a proper prefix / extension of a column name that is not itself a column name is absent
+    const std::string &nm = l.path.back();
+    std::string shorter = nm.substr(0, nm.size() - 1), longer = nm + "_";
+    if (!shorter.empty() && !name_count.count(shorter)) PBT_CHECK(vd, carquet_schema_find_column(s, shorter.c_str()) == -1, "find_column('%s') = %d, but no column has that name (it is a prefix of '%s')", shorter.c_str(), carquet_schema_find_column(s, shorter.c_str()), nm.c_str());
+    if (!name_count.count(longer)) PBT_CHECK(vd, carquet_schema_find_column(s, longer.c_str()) == -1, "find_column('%s') = %d, but no column has that name", longer.c_str(), carquet_schema_find_column(s, longer.c_str()));
+  }
   // the levels the readers use: reading returns the stored levels
   for (size_t g = 0; g < t.fs.row_groups.size(); g++)
     for (size_t k = 0; k < lv.size(); k++) {
@@ -190,7 +196,8 @@ static Verdict runB(const B &b) {
   std::vector<std::string> names;
   for (size_t i = 0; i < b.cols.size(); i++) {
     int type = b.cols[i] % 8, rep = (b.cols[i] / 8) % 3, tl = (b.cols[i] / 64) % 64, haslt = b.cols[i] / 4096;
-    names.push_back("col_" + std::to_string(i));
+    // odd-sized schemas: every later name is a proper prefix of all earlier ones
+    names.push_back(b.cols.size() % 2 ? "k" + std::string(b.cols.size() - i, 'a') : "col_" + std::to_string(i));
     carquet_logical_type_t lt; memset(&lt, 0, sizeof lt); lt.id = CARQUET_LOGICAL_STRING;
     carquet_status_t st = carquet_schema_add_column(s, names.back().c_str(), (carquet_physical_type_t)type, haslt ? &lt : nullptr, (carquet_field_repetition_t)rep, type == 7 ? tl : 0);
     PBT_CHECK(vd, st == CARQUET_OK, "add_column %zu failed: %d", i, (int)st);
